@@ -426,6 +426,19 @@ theorem csv_line_roundtrip (fmts : List CsvFmt) (vals : List Value) (line : Str)
       List.Forall₂ (fun (fv : CsvFmt × Value) t => csvReadsBack fv.1 fv.2 t) (fmts.zip vals) texts :=
   csv_line_roundtrip_aux fmts vals line h hne hs
 
+/-- **The writer's field → column table composed with the parser's column → field table is the identity on field names**
+(both regenerated: `DATA_FIELD_TYPES` of writers/sinex_tms.py, `field_def` of `SinexTmsParser.as_dataset`): every column
+the parser stores as a float field is written by the writer from exactly that field, every plain float field the writer
+writes (everything but the time columns and the components of `site_pos` / `dsite_pos`) comes back under its own name, and
+no parser key occurs twice. -/
+theorem tms_field_tables_agree :
+    (tmsParserFieldDef.all fun p => dataFieldTypes.any fun w => w.1.toLower = p.1 && w.2 = p.2) = true ∧
+    (dataFieldTypes.all fun w =>
+      w.2.startsWith "time." || w.2.startsWith "obs.site_pos." || w.2.startsWith "obs.dsite_pos." ||
+      tmsParserFieldDef.lookup w.1.toLower = some w.2) = true ∧
+    (tmsParserFieldDef.map (·.1)).Nodup := by
+  decide +kernel
+
 /-! ### the writers do not alter what they are given -/
 
 /-- **No writer assigns to, deletes from or calls a mutating method on an object reachable from its arguments or
@@ -552,6 +565,7 @@ end Midgard.Props.C17
 #print axioms Midgard.Props.C17.tms_float_column_rounded
 #print axioms Midgard.Props.C17.tms_columns_right_aligned
 #print axioms Midgard.Props.C17.csv_line_roundtrip
+#print axioms Midgard.Props.C17.tms_field_tables_agree
 #print axioms Midgard.Props.C17.writers_assign_nothing_on_inputs
 #print axioms Midgard.Props.C17.writer_effect_roots_cover
 #print axioms Midgard.Props.C17.blocks_balanced
